@@ -34,12 +34,35 @@ var histProgs = []string{
 	"let l=numbers(5).map(x->fail(1,x)); try l.sum() catch a",
 	"let l=numbers(7).map(x->x*3); let m=l.append(a); let n=l.append(b); [l.size(), m.last(), n.last()].string()",
 	"let l=numbers(9).map(x->x+1); (a ~ l) & (l.size()=9)",
-	"let l=numbers(9).map(x->x+1); l.indexWhere(x->x>a)+l.present(x->x=b)",
+	"let l=numbers(9).map(x->x+1); l.indexWhere(x->x>a)+(if l.present(x->x=b) then 1 else 0)",
 	"let m={a:numbers(4).map(x->x*x), b:2}; m.a[a%4]+m.b",
 	"let l=numbers(6).combine((p,q)->p+q); l.append(a).sum()+l[b%5]",
 	"src.map(x->cost(0,boom(1,x))).sum()",
 	"let t=numbers(30).map(x->x%7).order(x->x); t.top(a%5+1).string()",
 	"let l=numbers(10).map(x->x*2); l.set(a%10, b).sum()+l.sum()",
+	// built-in static functions and methods with argument-dependent values
+	"max(a,b,a+b)*1000000+min(a,b,a-b)",
+	"min(a)+max(b)+min(a,b)*7+max(a,b)",
+	"sprintf(\"%d-%v-%s\", a, b, \"x\"+a)",
+	"abs(a-b*3)+sqr(a)+round(a/3)+int(float(a)/2)+sign(b-a)",
+	"(\"ab \"+a+\" cd\").trim().toUpper().replace(\"B\",\"\"+b).len()",
+	"(\"k\"+a+\",\"+b+\",z\").split(\",\").map(s->s.len()).string()",
+	"(\"hello\"+a).cut(1,3)+(\"x\"+b).indexOf(\"\"+b)+(\"q\"+a).contains(\"\"+a)",
+	"bisection(x->x*x-a-1, 0, 100)>0",
+	"[a,b,3,a*b].max()*100+[a,b,3].min()+[a,b].mean()",
+	"switch a%3 case 0: \"z\"+b case 1: b default a+b",
+	"let m={p:a, q:b}; m.map((k,x)->x*2).accept((k,x)->x>=0).list().size()+m.get(\"p\")",
+	"let m={p:a, q:[b,a]}; m.put(\"r\",b).replace(x->{p:a+1}).string()",
+	"{u:a}.isAvail(\"u\",\"w\").string()+({u:a}+{w:b}).size()",
+	"numbers(a%7+2).minMax(x->(x-b)*(x-b)).minItem+numbers(a%5+1).mapReduce(b,(s,x)->s+x)",
+	"binAnd(a,b)+binOr(a,b)+(a<<2)+(a>>1)+a%(b+1)",
+	"string(a)+string([a,b])+string({z:a})",
+	"numbers(a%9+1).order(x->(x*7+b)%5).string()",
+	"numbers(a%9+3).iir(x->x+b,(x,l)->x+l).last()+numbers(a%6+2).combine((p,q)->p*q+b).sum()",
+	"numbers(a%8+2).visit({s:0,n:b},(v,x)->{s:v.s+x,n:v.n+1}).s",
+	"numbers(a%6+2).fsm((s,x)->goto((s.state+x+b)%3)).map(s->s.state).string()",
+	"numbers(a%5+2).cross([b,1],(p,q)->p*q).sum()+numbers(a%4+2).combine3((p,q,r)->p+q+r+b).size()",
+	"(if a>b then (x->x+a) else (x->x*b))(3)+(x->y->z->x*100+y*10+z)(a)(b)(1)",
 }
 
 func genHistArgs(r *rng) []Arg {
